@@ -393,7 +393,19 @@ int32 parseClientHello(ssl_t *ssl, unsigned char **cp, unsigned char *end)
                @see https://tools.ietf.org/html/rfc7507#section-3.*/
             if (cipher == TLS_FALLBACK_SCSV)
             {
-                if (ssl->peerHelloVersion < psVerGetHighestTls(GET_SUPP_VER(ssl)))
+                psProtocolVersion_t highest;
+
+                /* Compare within the protocol family of the hello: the
+                   version bits of TLS and DTLS interleave */
+                if (ssl->peerHelloVersion & v_dtls_any)
+                {
+                    highest = psVerGetHighest(GET_SUPP_VER(ssl) & v_dtls_any, 1);
+                }
+                else
+                {
+                    highest = psVerGetHighestTls(GET_SUPP_VER(ssl));
+                }
+                if (ssl->peerHelloVersion < highest)
                 {
                     ssl->err = SSL_ALERT_INAPPROPRIATE_FALLBACK;
                     psTraceErrr("Inappropriate version fallback\n");
